@@ -1,0 +1,64 @@
+//go:build verif
+
+// Contracts for package didstore, checked by /verif/govc (comment-only; not part of any normal build).
+
+package didstore
+
+// ---- C10: the order of events is a strict total order; insertion keeps the list sorted ----
+
+// ASSUMED about dependencies (trusted): time.Time.Before is a strict weak order; SHA256Hash.Compare
+// (bytes.Compare on 32 bytes) is a three-way comparison of a total order.
+//@ axiom time_before_irreflexive forall a time.Time :: !a.Before(a)
+//@ axiom time_before_asymmetric forall a, b time.Time :: a.Before(b) ==> !b.Before(a)
+//@ axiom time_before_transitive forall a, b, c time.Time :: a.Before(b) && b.Before(c) ==> a.Before(c)
+//@ axiom time_incomparable_transitive forall a, b, c time.Time :: !a.Before(b) && !b.Before(a) && !b.Before(c) && !c.Before(b) ==> !a.Before(c) && !c.Before(a)
+//@ axiom hash_compare_reflexive forall a hash.SHA256Hash :: a.Compare(a) == 0
+//@ axiom hash_compare_antisymmetric forall a, b hash.SHA256Hash :: (a.Compare(b) < 0 <==> b.Compare(a) > 0) && (a.Compare(b) == 0 <==> b.Compare(a) == 0)
+//@ axiom hash_compare_transitive forall a, b, c hash.SHA256Hash :: a.Compare(b) < 0 && b.Compare(c) < 0 ==> a.Compare(c) < 0
+
+//@ func (event).before
+//@   prop C10
+//@   pure opaque
+//@   ensures result == (e.Clock < other.Clock || (e.Clock == other.Clock && (e.SigningTime.Before(other.SigningTime)
+//@           || (!other.SigningTime.Before(e.SigningTime) && e.Ref.Compare(other.Ref) < 0))))
+
+//@ lemma before_irreflexive forall a event :: !a.before(a)
+//@   prop C10
+//@ lemma before_asymmetric forall a, b event :: a.before(b) ==> !b.before(a)
+//@   prop C10
+//@ lemma before_transitive forall a, b, c event :: a.before(b) && b.before(c) ==> a.before(c)
+//@   prop C10
+//@ lemma before_total forall a, b event :: a.Ref.Compare(b.Ref) != 0 ==> a.before(b) || b.before(a)
+//@   prop C10
+
+//@ func (event).equal
+//@   prop C10
+//@   pure
+
+//@ func (*eventList).insert
+//@   prop C10 C19
+//@   safety
+//@   ints math
+//@   uses before_asymmetric before_transitive before_total
+//@   per-return
+//@   requires [sorted] forall a, b int :: 0 <= a && a < b && b < len(el.Events) ==> el.Events[a].before(el.Events[b])
+//@   requires [not-yet-present] forall a int :: 0 <= a && a < len(el.Events) ==> el.Events[a].Ref.Compare(newEvent.Ref) != 0
+//@   loop 1 invariant -1 <= i && i <= old(len(el.Events)) - 1 && index == i + 1 && len(newList) == old(len(el.Events)) + 1 && len(el.Events) == old(len(el.Events))
+//@   loop 1 invariant same(newList[index], newEvent)
+//@   loop 1 invariant forall k int :: 0 <= k && k < index ==> same(newList[k], old(el.Events[k]))
+//@   loop 1 invariant forall k int :: index < k && k <= old(len(el.Events)) ==> same(newList[k], old(el.Events[k-1])) && newEvent.before(newList[k])
+//@   ensures [one-longer] len(el.Events) == old(len(el.Events)) + 1 && 0 <= result && result <= old(len(el.Events))
+//@   ensures [inserted-at-result] same(el.Events[result], newEvent)
+//@   ensures [prefix-kept] forall k int :: 0 <= k && k < result ==> same(el.Events[k], old(el.Events[k]))
+//@   ensures [suffix-shifted] forall k int :: result < k && k < len(el.Events) ==> same(el.Events[k], old(el.Events[k-1]))
+//@   ensures [new-before-suffix] forall k int :: result < k && k < len(el.Events) ==> newEvent.before(el.Events[k])
+//@   ensures [predecessor-before-new] result > 0 ==> el.Events[result-1].before(newEvent)
+//@   ensures [prefix-before-new] forall k int :: 0 <= k && k < result ==> el.Events[k].before(newEvent)
+//@   ensures [still-sorted] forall a, b int :: 0 <= a && a < b && b < len(el.Events) ==> el.Events[a].before(el.Events[b])
+
+//@ func (*eventList).contains
+//@   prop C10 C19
+//@   safety
+//@   modifies nothing
+//@   loop 1 invariant forall k int :: 0 <= k && k < $i ==> !el.Events[k].equal(newEvent)
+//@   ensures [member-by-ref] result <==> exists k int :: 0 <= k && k < len(el.Events) && el.Events[k].equal(newEvent)
